@@ -33,6 +33,7 @@ RULE += (' ' + 'Also varied: stored units of SED files / cube / error columns, a
 RULE += (' ' + 'All four fitter variants (per-file, cube, cube+memmap, cube+memmap with reversed filters) are set up before any is used. Model names also come in styles whose <name>_sed.fits files sort differently from the names, and as ordinary words.')
 RULE += (' ' + 'In 3 of 5 cases one more filter is convolved into both packages at the end of the session, after write_parameters / write_parameter_ranges / extract_parameters ran on a fit; its file must follow the same row order and hold the same values.')
 RULE += (' ' + 'The aperture axis of the SED files and of the cube is stored in AU, cm or pc (independently); carried-over apertures are compared as lengths.')
+RULE += (' ' + 'In a third of the cases one filter reaches beyond an end of the spectral range of the SEDs.')
 ASSUMPTIONS = [
     'per-file vs cube convolved values: 1e-10 relative for float64 cubes, 1e-5 for float32 cubes',
     'fits of each variant are checked against the reference fitter built from the exact reference convolution '
@@ -44,6 +45,12 @@ ASSUMPTIONS = [
 def cases(draw):
     pkg = draw(convpkg.abstract_packages(max_models=8, max_ap=5, min_wav=3, max_wav=10))
     filters = draw(convpkg.filters_for(pkg['wav'], 2, 4, inside=True))
+    if draw(st.integers(0, 2)) == 0:
+        # one filter whose tabulated curve reaches beyond an end of the SEDs' spectral range (a sub-mm filter on SEDs that
+        # stop at 500 micron): the convolution runs over the part that is covered
+        edge = draw(convpkg.filters_for(pkg['wav'], 1, 1, inside=False))[0]
+        edge['name'] = 'edge'
+        filters[-1] = edge
     law = draw(gen.wide_laws(8))
     nf = len(filters)
     k = of.extinction_pattern(law['wav'], law['chi'], [f['central'] for f in filters])
@@ -105,6 +112,11 @@ def run_case(case, ctx):
               'sed_unit_' + pkg.get('sed_unit', 'mJy').replace(' ', '_'), 'cube_unit_' + pkg.get('cube_unit', 'mJy'),
               'apertures_stored_' + pkg.get('ap_storage', 'asc'), 'cube_unc_unit_' + pkg.get('cube_unc_unit', 'same')}
     labels.add('aperture_units_sed_%s_cube_%s' % (pkg.get('sed_ap_unit', 'AU'), pkg.get('cube_ap_unit', 'AU')))
+    nu_lo_, nu_hi_ = om.C_UM_HZ / pkg['wav'][-1], om.C_UM_HZ / pkg['wav'][0]
+    if any(min(f['nu']) < nu_lo_ for f in filters):
+        labels.add('filter_reaches_beyond_the_long_wavelength_end')
+    if any(max(f['nu']) > nu_hi_ for f in filters):
+        labels.add('filter_reaches_beyond_the_short_wavelength_end')
     if f32:
         labels.add('float32_cube')
     if permuted:
